@@ -867,8 +867,7 @@ theorem brt_loop_b2 (url : BUrlFacts) (parseOk : Bytes → Bool) (bs PRE idx res
   · have e : sos = [{ name := nIndex, length := idx.length }, { name := nPrimary, length := x.length },
         { name := nResponses, length := respBuf.length }] := by
       rw [← hsos]; rfl
-    simp only [List.map_cons, List.map_nil, List.flatten_cons, List.flatten_nil, List.append_nil,
-      List.length_append] at hl
+    simp only [List.map_cons, List.map_nil, List.flatten_cons, List.flatten_nil, List.append_nil] at hl
     have hc2 : (bs.drop (PRE.length + idx.length)).take x.length = x := by
       rw [hbs]
       have : PRE ++ (idx ++ (([(nPrimary, x)].map (·.2)).flatten ++ (respBuf ++ footer))) =
@@ -882,3 +881,606 @@ theorem brt_loop_b2 (url : BUrlFacts) (parseOk : Bytes → Bool) (bs PRE idx res
     rw [brt_step_primary url parseOk .b2 bs PRE.length _ _ _ _ _ u rfl (by dsimp only; omega) hlen
       (by dsimp only; rw [hc2]; exact hpu)]
     rw [brt_step_responses _ _ _ _ _ _ _ _ _ _ rfl, sectionLoop]
+
+/-! ### the round trip, version b2 -/
+
+/-- format constraints the reader enforces and the writer does not check -/
+structure RDom (url : BUrlFacts) (b : Bundle) : Prop where
+  /-- every resource URL parses, has no fragment and no credentials, and prints as itself -/
+  urlsOk : ∀ e ∈ b.exchanges, ∃ isAbs, url e.url = some (false, false, isAbs, e.url)
+  /-- b2: one resource per URL -/
+  urlsDistinct : (b.exchanges.map (·.url)).Nodup
+  /-- the primary URL is absolute, has no fragment and no credentials, and prints as itself -/
+  primaryOk : ∀ u, b.primaryURL = some u → url u = some (false, false, true, u)
+  /-- three-digit status codes -/
+  status : ∀ e ∈ b.exchanges, 100 ≤ e.resp.status ∧ e.resp.status ≤ 999
+  /-- ASCII header names (not pseudo headers) and values -/
+  hdrAscii : ∀ e ∈ b.exchanges, ∀ kv ∈ e.resp.headers,
+    isAscii kv.1 = true ∧ (∀ v ∈ kv.2, isAscii v = true) ∧ kv.1.head? ≠ some 58
+  /-- no signatures section -/
+  sigs : b.signatures = none
+
+/-- the request the reader derives for the exchange `t.1` whose response `t.2.1` starts at offset `t.2.2` of the
+    responses section, which starts at `respOff` in the file -/
+def brt_reqOf (respOff : Nat) (t : Exch × Bytes × Nat) : ReqEntry :=
+  { url := t.1.url, offset := respOff + t.2.2, length := t.2.1.length }
+
+/-- (3) `loadMetadata` on the writer's output: version, primary URL, and one request per exchange, in index order
+    (`σ`), each delimiting the bytes of that exchange's encoded response -/
+theorem brt_loadMetadata_write_b2 (url : BUrlFacts) (parseOk : Bytes → Bool) (b : Bundle) (out : Bytes)
+    (hv : b.version = .b2) (hd : RDom url b) (hw : write b = .ok (.ok out)) (hlen : out.length < 2 ^ 63) :
+    ∃ (L σ : List (Exch × Bytes × Nat)) (respOff : Nat),
+      L.map (·.1) = b.exchanges ∧ σ.Perm L ∧
+      (∀ t ∈ L, encodeResponse t.1.resp = .ok t.2.1 ∧ respOff + t.2.2 + t.2.1.length ≤ out.length ∧
+        (out.drop (respOff + t.2.2)).take t.2.1.length = t.2.1) ∧
+      b.manifestURL = none ∧
+      loadMetadata url parseOk out =
+        .ok { version := .b2, primaryURL := b.primaryURL, manifestURL := none, signatures := none,
+              requests := σ.map (brt_reqOf respOff) } := by
+  obtain ⟨respBuf, entries, idx, p, m, s, hdr, h1, h2, h3, h4, h5, h6, ho⟩ := write_ok b out hw
+  rw [hv] at h2
+  have hhd : hdr = BVer.magic .b2 := by
+    unfold headOf at h6
+    rw [hv] at h6
+    injection h6 with h6
+    injection h6 with h6
+    exact h6.symm
+  have hm : m = [] ∧ b.manifestURL = none := by
+    unfold manifestSec at h4
+    cases hu : b.manifestURL with
+    | none =>
+      rw [hu] at h4
+      injection h4 with h4
+      exact ⟨h4.symm, rfl⟩
+    | some u =>
+      rw [hu] at h4
+      dsimp only at h4
+      rw [if_pos (by rw [hv]; decide)] at h4
+      cases h4
+  have hs : s = [] := by
+    unfold sigsSec at h5
+    rw [hd.sigs] at h5
+    injection h5 with h5
+    exact h5.symm
+  have hp0 : (b.primaryURL = none ∧ p = []) ∨
+      ∃ u x, b.primaryURL = some u ∧ encodeUrlSection u = .ok x ∧ p = [(nPrimary, x)] := by
+    unfold primarySec at h3
+    rw [hv] at h3
+    cases hu : b.primaryURL with
+    | none =>
+      rw [hu] at h3
+      injection h3 with h3
+      exact Or.inl ⟨rfl, h3.symm⟩
+    | some u =>
+      rw [hu] at h3
+      cases he : encodeUrlSection u with
+      | error e => simp only [he] at h3; cases h3
+      | ok x =>
+        simp only [he] at h3
+        injection h3 with h3
+        exact Or.inr ⟨u, x, rfl, he, h3.symm⟩
+  subst hhd
+  obtain ⟨rfl, hman⟩ := hm
+  subst hs
+  -- the exchanges loop
+  obtain ⟨L, tail, l1, l2, l3, l4⟩ := brt_addExchanges _ _ _ _ _ h1
+  rw [List.nil_append] at l2
+  -- the layout of the file
+  obtain ⟨footer, hfl, ho'⟩ : ∃ footer : Bytes, footer.length = 9 ∧
+      out = bodyOf (BVer.magic .b2) (sectionsOf idx respBuf p [] []) ++ footer := ⟨_, footer_length _, ho⟩
+  clear ho
+  have hsec : sectionsOf idx respBuf p [] [] = ([(nIndex, idx)] ++ p) ++ [(nResponses, respBuf)] := by
+    unfold sectionsOf; simp
+  rw [hsec] at ho'
+  unfold bodyOf at ho'
+  simp only [List.append_assoc] at ho'
+  have hpn : ∀ s ∈ p, s.1 = nPrimary := by
+    rcases hp0 with ⟨_, rfl⟩ | ⟨u, x, _, _, rfl⟩
+    · intro s hs; cases hs
+    · intro s hs; rw [List.mem_singleton.mp hs]
+  have hplen : p.length ≤ 1 := by
+    rcases hp0 with ⟨_, rfl⟩ | ⟨u, x, _, _, rfl⟩ <;> simp
+  have hnames : ∀ s ∈ [(nIndex, idx)] ++ (p ++ [(nResponses, respBuf)]),
+      s.1 = nIndex ∨ s.1 = nPrimary ∨ s.1 = nResponses := by
+    intro s hs
+    rcases List.mem_append.mp hs with hs | hs
+    · rw [List.mem_singleton.mp hs]; exact Or.inl rfl
+    · rcases List.mem_append.mp hs with hs | hs
+      · exact Or.inr (Or.inl (hpn s hs))
+      · rw [List.mem_singleton.mp hs]; exact Or.inr (Or.inr rfl)
+  have hall : ∀ s ∈ [(nIndex, idx)] ++ (p ++ [(nResponses, respBuf)]),
+      utf8Valid s.1 = true ∧ s.1.length < 2 ^ 63 := by
+    intro s hs
+    rcases hnames s hs with h | h | h <;> rw [h] <;> exact ⟨by decide +kernel, by decide⟩
+  have hndp : (([(nIndex, idx)] ++ (p ++ [(nResponses, respBuf)])).map Prod.fst).Nodup := by
+    have := sections_nodup idx respBuf p [] [] (by
+      rcases hp0 with ⟨_, rfl⟩ | ⟨u, x, _, _, rfl⟩
+      · exact Or.inl rfl
+      · exact Or.inr ⟨x, rfl⟩) (Or.inl rfl) (Or.inl rfl)
+    rw [hsec, List.append_assoc] at this
+    exact this
+  have hsl : (lengthsOf ([(nIndex, idx)] ++ (p ++ [(nResponses, respBuf)]))).length < 8192 := by
+    have := brt_lengthsOf_le ([(nIndex, idx)] ++ (p ++ [(nResponses, respBuf)])) (by
+      intro s hs
+      rcases hnames s hs with h | h | h <;> rw [h] <;> decide)
+    simp only [List.length_append, List.length_cons, List.length_nil] at this ⊢
+    omega
+  have hmeta := brt_metaTail_sections url parseOk .b2 none (BVer.magic .b2) ([(nIndex, idx)] ++ p) respBuf footer
+    (by rw [List.append_assoc]; exact hall) (by rw [List.append_assoc]; exact hndp)
+    (by rw [List.append_assoc]; exact hsl) (by rw [List.append_assoc, ← ho']; exact hlen)
+  rw [List.append_assoc, ← ho'] at hmeta
+  have hload := brt_loadMetadata_b2 url parseOk out _ (by rw [ho']; exact brt_parseMagic_b2 _)
+  rw [hmeta] at hload
+  clear hmeta
+  generalize hPRE : BVer.magic .b2 ++ (encodeBytes (lengthsOf ([(nIndex, idx)] ++ (p ++ [(nResponses, respBuf)]))) ++
+      encodeArrayHeader ([(nIndex, idx)] ++ (p ++ [(nResponses, respBuf)])).length) = PRE at hload
+  have hout : out = PRE ++ (idx ++ ((p.map (·.2)).flatten ++ (respBuf ++ footer))) := by
+    rw [ho', ← hPRE]
+    simp only [List.append_assoc, List.map_append, List.map_cons, List.map_nil, List.flatten_append,
+      List.flatten_cons, List.flatten_nil, List.append_nil, List.cons_append, List.nil_append]
+  have houtl := congrArg List.length hout
+  simp only [List.length_append] at houtl
+  -- the index
+  have hurls : (entries.map (·.url)).Nodup := by
+    rw [l2, List.map_map]
+    have : (L.map ((fun e : IndexEntry => e.url) ∘ brt_toEntry)) = (L.map (·.1)).map (·.url) := by
+      rw [List.map_map]; rfl
+    rw [this, l1]
+    exact hd.urlsDistinct
+  obtain ⟨hidxmap, hutf8⟩ := brt_finalize_b2 entries idx hurls h2
+  have hsosE : brt_sos ([(nIndex, idx)] ++ (p ++ [(nResponses, respBuf)])) =
+      brt_sos ([(nIndex, idx)] ++ p) ++ { name := nResponses, length := respBuf.length } :: [] := by
+    simp [brt_sos]
+  have hlenpre : lenSum (brt_sos ([(nIndex, idx)] ++ p)) = idx.length + (p.map (·.2)).flatten.length := by
+    rw [brt_lenSum_sos]
+    simp
+  have hinL : ∀ t ∈ L, t.2.2 + t.2.1.length ≤ respBuf.length := by
+    intro t ht
+    obtain ⟨_, _, A, B, e, eA⟩ := l4 t ht
+    have := congrArg List.length e
+    simp only [List.length_append] at this
+    omega
+  obtain ⟨σe, hσe, hpi⟩ := brt_parseIndex_b2 url idx PRE.length (brt_sos ([(nIndex, idx)] ++ p)) respBuf.length []
+    entries (by
+      intro s hs
+      obtain ⟨x, hx, rfl⟩ := List.mem_map.mp hs
+      have := hnames x (by
+        rcases List.mem_append.mp hx with hx | hx
+        · exact List.mem_append_left _ hx
+        · exact List.mem_append_right _ (List.mem_append_left _ hx))
+      have hx1 : x.1 ≠ nResponses := by
+        intro hc
+        have hnd' := hndp
+        rw [← List.append_assoc, List.map_append, List.nodup_append] at hnd'
+        exact hnd'.2.2 x.1 (List.mem_map.mpr ⟨x, hx, rfl⟩) nResponses (by simp) hc
+      exact hx1)
+    (by rw [hlenpre]; omega)
+    (by
+      intro e he
+      rw [l2] at he
+      obtain ⟨t, ht, rfl⟩ := List.mem_map.mp he
+      have hmem : t.1 ∈ b.exchanges := by rw [← l1]; exact List.mem_map.mpr ⟨t, ht, rfl⟩
+      obtain ⟨isAbs, hu⟩ := hd.urlsOk t.1 hmem
+      refine ⟨hutf8 _ (by rw [l2]; exact List.mem_map.mpr ⟨t, ht, rfl⟩), ?_, hinL t ht⟩
+      show indexUrl url t.1.url = some t.1.url
+      unfold indexUrl
+      rw [hu]
+      rfl)
+    hidxmap (by omega)
+  rw [l2] at hσe
+  obtain ⟨σ, hσ, rfl⟩ := Sxg.perm_map_exists brt_toEntry σe L hσe
+  rw [hlenpre] at hpi
+  refine ⟨L, σ, PRE.length + (idx.length + (p.map (·.2)).flatten.length), l1, hσ, ?_, hman, ?_⟩
+  · intro t ht
+    obtain ⟨a1, _, A, B, e, eA⟩ := l4 t ht
+    have := hinL t ht
+    refine ⟨a1, by omega, ?_⟩
+    have e2 : out = (PRE ++ idx ++ (p.map (·.2)).flatten ++ A) ++ t.2.1 ++ (B ++ footer) := by
+      rw [hout, e]; simp only [List.append_assoc]
+    rw [e2]
+    exact brt_drop_take _ _ _ _ (by simp only [List.length_append]; omega)
+  · rw [hload]
+    have hp : (b.primaryURL = none ∧ p = []) ∨
+        ∃ u x, b.primaryURL = some u ∧ parseUrlSection url x = some u ∧ p = [(nPrimary, x)] := by
+      rcases hp0 with h | ⟨u, x, hu, hx, hpx⟩
+      · exact Or.inl h
+      · refine Or.inr ⟨u, x, hu, ?_, hpx⟩
+        refine brt_parseUrlSection url u x hx ?_ (hd.primaryOk u hu)
+        unfold encodeUrlSection encodeText at hx
+        by_cases hval : utf8Valid u = true
+        · rw [if_pos hval] at hx
+          injection hx with hx
+          rw [hpx, ← hx] at houtl
+          simp at houtl
+          omega
+        · rw [if_neg hval] at hx; cases hx
+    have := brt_loop_b2 url parseOk out PRE idx respBuf footer p b.primaryURL hp hout (by omega) (by omega)
+      ((σ.map brt_toEntry).map (brt_mkReq (PRE.length + (idx.length + (p.map (·.2)).flatten.length))))
+      (by rw [List.append_assoc, hsosE]; exact hpi)
+    rw [List.append_assoc] at this
+    rw [this, List.map_map]
+    rfl
+
+theorem brt_loadResponses (bs : Bytes) : ∀ (reqs : List ReqEntry) (acc : List Exch),
+    (∀ r ∈ reqs, ∃ resp, loadResponse r bs = .ok resp) →
+    ∃ es', loadResponses bs reqs acc = .ok (acc ++ es') ∧
+      Forall₂ (fun (r : ReqEntry) (e : Exch) => e.url = r.url ∧ loadResponse r bs = .ok e.resp) reqs es' := by
+  intro reqs
+  induction reqs with
+  | nil => intro acc _; exact ⟨[], by simp [loadResponses], Forall₂.nil⟩
+  | cons req rest ih =>
+    intro acc h
+    obtain ⟨resp, hr⟩ := h req (by simp)
+    obtain ⟨es', e1, e2⟩ := ih (acc ++ [{ url := req.url, resp := resp }]) (fun r hr => h r (List.mem_cons_of_mem _ hr))
+    refine ⟨{ url := req.url, resp := resp } :: es', ?_, Forall₂.cons ⟨rfl, hr⟩ e2⟩
+    rw [loadResponses, hr]
+    dsimp only
+    rw [e1, List.append_assoc]
+    rfl
+
+theorem brt_forall₂_urls {P : ReqEntry → Exch → Prop} {reqs : List ReqEntry} {es : List Exch}
+    (h : Forall₂ (fun r e => e.url = r.url ∧ P r e) reqs es) : es.map (·.url) = reqs.map (·.url) := by
+  induction h with
+  | nil => rfl
+  | cons hab _ ih => simp only [List.map_cons, ih, hab.1]
+
+/-- (4) **write → read round trip, version b2.**  Reading what `WriteTo` wrote gives back the version and the primary
+    URL, and the exchanges in index order: `σ` is a permutation of the written exchanges (nothing dropped,
+    duplicated or attributed to another URL); the `i`-th exchange read has the URL, status and body of `σ[i]` and
+    its header fields with names canonicalised from the lower-cased form and values comma-joined
+    (`Sxg.normField kv = (canonicalKey (lowerAscii kv.1), [joinComma kv.2])`), up to the order of the fields. -/
+theorem read_write_b2 (url : BUrlFacts) (parseOk : Bytes → Bool) (b : Bundle) (out : Bytes) (hv : b.version = .b2)
+    (hd : RDom url b) (hw : write b = .ok (.ok out)) (hlen : out.length < 2 ^ 63) :
+    ∃ b', read url parseOk out = .ok b' ∧ b'.version = .b2 ∧ b'.primaryURL = b.primaryURL ∧
+      b'.manifestURL = none ∧ b.manifestURL = none ∧ b'.signatures = none ∧
+      ∃ σ : List Exch, σ.Perm b.exchanges ∧ b'.exchanges.length = σ.length ∧
+        b'.exchanges.map (·.url) = σ.map (·.url) ∧
+        ∀ i (hi : i < σ.length), ∃ e', b'.exchanges[i]? = some e' ∧ e'.url = σ[i].url ∧
+          e'.resp.status = σ[i].resp.status ∧ e'.resp.body = σ[i].resp.body ∧
+          e'.resp.headers.Perm (σ[i].resp.headers.map
+            fun kv => (canonicalKey (lowerAscii kv.1), [joinComma kv.2])) := by
+  obtain ⟨L, σL, respOff, l1, hσ, hL, hman, hmeta⟩ := brt_loadMetadata_write_b2 url parseOk b out hv hd hw hlen
+  have hone : ∀ t ∈ σL, ∃ hs, loadResponse (brt_reqOf respOff t) out =
+      .ok { status := t.1.resp.status, headers := hs, body := t.1.resp.body } ∧
+      hs.Perm (t.1.resp.headers.map Sxg.normField) := by
+    intro t ht
+    have htL := hσ.subset ht
+    obtain ⟨a1, a2, a3⟩ := hL t htL
+    have hmem : t.1 ∈ b.exchanges := by rw [← l1]; exact List.mem_map.mpr ⟨t, htL, rfl⟩
+    exact brt_loadResponse_encodeResponse t.1.resp t.2.1 t.1.url (respOff + t.2.2) out
+      ⟨hd.status t.1 hmem, hd.hdrAscii t.1 hmem⟩ a1 a3 a2 hlen
+  obtain ⟨es, hlr, hf⟩ := brt_loadResponses out (σL.map (brt_reqOf respOff)) [] (by
+    intro r hr
+    obtain ⟨t, ht, rfl⟩ := List.mem_map.mp hr
+    obtain ⟨hs, h1, _⟩ := hone t ht
+    exact ⟨_, h1⟩)
+  rw [List.nil_append] at hlr
+  refine ⟨{ version := .b2, primaryURL := b.primaryURL, exchanges := es, manifestURL := none, signatures := none },
+    ?_, rfl, rfl, rfl, hman, rfl, σL.map (·.1), ?_, ?_, ?_, ?_⟩
+  · unfold read
+    rw [hmeta]
+    dsimp only
+    rw [hlr]
+  · rw [← l1]; exact hσ.map _
+  · obtain ⟨h1, _⟩ := forall₂_index hf
+    rw [h1]; simp
+  · show es.map (·.url) = (σL.map (·.1)).map (·.url)
+    rw [brt_forall₂_urls hf, List.map_map, List.map_map]
+    rfl
+  · intro i hi
+    obtain ⟨_, h2⟩ := forall₂_index hf
+    have hi' : i < σL.length := by simpa using hi
+    obtain ⟨e', he', hu, hr⟩ := h2 i (by simpa using hi')
+    rw [List.getElem_map] at hu hr
+    obtain ⟨hs, hl, hperm⟩ := hone σL[i] (List.getElem_mem hi')
+    rw [hl] at hr
+    injection hr with hr
+    refine ⟨e', he', ?_, ?_, ?_, ?_⟩
+    · rw [List.getElem_map]; exact hu
+    · rw [List.getElem_map, ← hr]
+    · rw [List.getElem_map, ← hr]
+    · rw [List.getElem_map, ← hr]; exact hperm
+
+/-! ### 5a. the signatures section -/
+
+/-- closed form of one vouched-subset map: keys in bytewise order `sig` < `signed` < `authority` -/
+def brt_encVouched (vs : VouchedSubset) : Bytes :=
+  encodeHead 5 3 ++ (tstr kSig ++ (encodeBytes vs.sig ++ (tstr kSigned ++ (encodeBytes vs.signed ++
+    (tstr kAuthority ++ encodeUint vs.authority)))))
+
+theorem brt_encodeVouched (vs : VouchedSubset) :
+    encodeMap [(tstr kAuthority, encodeUint vs.authority), (tstr kSig, encodeBytes vs.sig),
+      (tstr kSigned, encodeBytes vs.signed)] = .ok (brt_encVouched vs) := by
+  have h := CertChain.encodeMap_of_sorted
+    ([(tstr kAuthority, encodeUint vs.authority)] ++ [(tstr kSig, encodeBytes vs.sig), (tstr kSigned, encodeBytes vs.signed)])
+    [(tstr kSig, encodeBytes vs.sig), (tstr kSigned, encodeBytes vs.signed), (tstr kAuthority, encodeUint vs.authority)]
+    (List.perm_append_comm (l₁ := [(tstr kSig, encodeBytes vs.sig), (tstr kSigned, encodeBytes vs.signed)])
+      (l₂ := [(tstr kAuthority, encodeUint vs.authority)]))
+    (by show ([tstr kAuthority, tstr kSig, tstr kSigned] : List Bytes).Nodup; decide +kernel)
+    (by
+      apply CertChain.entryLe_pairwise_of_keys
+      show ([tstr kSig, tstr kSigned, tstr kAuthority] : List Bytes).Pairwise _
+      decide +kernel)
+  show encodeMap ([(tstr kAuthority, encodeUint vs.authority)] ++
+    [(tstr kSig, encodeBytes vs.sig), (tstr kSigned, encodeBytes vs.signed)]) = _
+  rw [h]
+  simp [brt_encVouched]
+
+/-- the body of the loop of `newSignaturesSection` over the vouched subsets -/
+def brt_vstep (acc : Bytes) (vs : VouchedSubset) : Except EncErr Bytes := do
+  let m ← encodeMap [(tstr kAuthority, encodeUint vs.authority), (tstr kSig, encodeBytes vs.sig),
+    (tstr kSigned, encodeBytes vs.signed)]
+  pure (acc ++ m)
+
+theorem brt_vstep_eq (acc : Bytes) (vs : VouchedSubset) : brt_vstep acc vs = .ok (acc ++ brt_encVouched vs) := by
+  unfold brt_vstep
+  rw [brt_encodeVouched]
+  rfl
+
+theorem brt_foldlM_vouched : ∀ (subs : List VouchedSubset) (acc : Bytes),
+    subs.foldlM brt_vstep acc = .ok (acc ++ (subs.map brt_encVouched).flatten) := by
+  intro subs
+  induction subs with
+  | nil => intro acc; simp [pure, Except.pure]
+  | cons vs rest ih =>
+    intro acc
+    rw [List.foldlM_cons, brt_vstep_eq]
+    show List.foldlM brt_vstep (acc ++ brt_encVouched vs) rest = _
+    rw [ih]
+    simp
+
+theorem brt_encodeSignatures (s : Sigs) : encodeSignatures s =
+    .ok (encodeArrayHeader 2 ++ (encodeArrayHeader s.authorities.length ++ ((s.authorities.map CertChain.encAug).flatten ++
+      (encodeArrayHeader s.subsets.length ++ (s.subsets.map brt_encVouched).flatten)))) := by
+  unfold encodeSignatures
+  rw [CertChain.encodeAll_eq]
+  show (do
+    let auths ← (Except.ok (s.authorities.map CertChain.encAug).flatten : Except EncErr Bytes)
+    let subs ← s.subsets.foldlM brt_vstep []
+    pure (encodeArrayHeader 2 ++ encodeArrayHeader s.authorities.length ++ auths ++
+      encodeArrayHeader s.subsets.length ++ subs)) = _
+  rw [brt_foldlM_vouched]
+  simp [bind, Except.bind, pure, Except.pure]
+
+theorem brt_decodeVouched_enc (vs : VouchedSubset) (rest : Bytes) (acc : VouchedSubset)
+    (h1 : vs.sig.length < 2 ^ 63) (h2 : vs.signed.length < 2 ^ 63) (h3 : vs.authority < 2 ^ 64) :
+    decodeVouched 3 (tstr kSig ++ (encodeBytes vs.sig ++ (tstr kSigned ++ (encodeBytes vs.signed ++
+      (tstr kAuthority ++ (encodeUint vs.authority ++ rest)))))) acc = some (vs, rest) := by
+  rw [decodeVouched, brt_decodeText_tstr kSig (by decide +kernel) (by decide)]
+  dsimp only
+  rw [if_neg (by decide), if_pos rfl, C12.roundtrip_bytes _ h1]
+  dsimp only
+  rw [decodeVouched, brt_decodeText_tstr kSigned (by decide +kernel) (by decide)]
+  dsimp only
+  rw [if_neg (by decide), if_neg (by decide), if_pos rfl, C12.roundtrip_bytes _ h2]
+  dsimp only
+  rw [decodeVouched, brt_decodeText_tstr kAuthority (by decide +kernel) (by decide)]
+  dsimp only
+  rw [if_pos rfl, C12.roundtrip_uint _ h3]
+  dsimp only
+  rw [decodeVouched]
+
+theorem brt_decodeVouchedList_enc : ∀ (subs : List VouchedSubset) (rest : Bytes) (acc : List VouchedSubset),
+    (∀ vs ∈ subs, vs.sig.length < 2 ^ 63 ∧ vs.signed.length < 2 ^ 63 ∧ vs.authority < 2 ^ 64) →
+    decodeVouchedList subs.length ((subs.map brt_encVouched).flatten ++ rest) acc =
+      if rest = rest then some (acc ++ subs) else none := by
+  intro subs
+  induction subs with
+  | nil => intro rest acc _; simp [decodeVouchedList]
+  | cons vs tl ih =>
+    intro rest acc h
+    obtain ⟨h1, h2, h3⟩ := h vs (by simp)
+    have e : ((vs :: tl).map brt_encVouched).flatten ++ rest =
+        encodeMapHeader 3 ++ (tstr kSig ++ (encodeBytes vs.sig ++ (tstr kSigned ++ (encodeBytes vs.signed ++
+          (tstr kAuthority ++ (encodeUint vs.authority ++ ((tl.map brt_encVouched).flatten ++ rest))))))) := by
+      simp [brt_encVouched, encodeMapHeader]
+    rw [e, List.length_cons, decodeVouchedList, C12.roundtrip_mapHeader 3 (by decide)]
+    dsimp only
+    rw [if_neg (by decide), brt_decodeVouched_enc vs _ _ h1 h2 h3]
+    dsimp only
+    rw [ih rest _ (fun x hx => h x (List.mem_cons_of_mem _ hx))]
+    simp
+
+theorem brt_len_le_flatten_map {α : Type} (f : α → Bytes) (h : ∀ a, 0 < (f a).length) :
+    ∀ (l : List α), l.length ≤ ((l.map f).flatten).length := by
+  intro l
+  induction l with
+  | nil => simp
+  | cons a rest ih =>
+    have := h a
+    simp only [List.map_cons, List.flatten_cons, List.length_append, List.length_cons]
+    omega
+
+theorem brt_encAug_bounds (a : CertChain.AugCert) :
+    0 < (CertChain.encAug a).length ∧ a.cert.length ≤ (CertChain.encAug a).length ∧
+    (∀ o, a.ocsp = some o → o.length ≤ (CertChain.encAug a).length) ∧
+    (∀ s, a.sct = some s → s.length ≤ (CertChain.encAug a).length) := by
+  obtain ⟨c, o, s⟩ := a
+  have h0 := brt_encodeHead_pos 5 (CertChain.augCount ⟨c, o, s⟩)
+  cases o <;> cases s <;>
+    simp only [CertChain.encAug, CertChain.optBytes, List.length_append, encodeBytes, List.append_nil] <;>
+    refine ⟨by omega, by omega, ?_, ?_⟩ <;> intro x hx <;> cases hx <;> omega
+
+theorem brt_encVouched_bounds (vs : VouchedSubset) :
+    0 < (brt_encVouched vs).length ∧ vs.sig.length ≤ (brt_encVouched vs).length ∧
+    vs.signed.length ≤ (brt_encVouched vs).length := by
+  simp only [brt_encVouched, List.length_append, encodeBytes]
+  have := brt_encodeHead_pos 5 3
+  omega
+
+/-- `parseSignaturesSection` inverts `newSignaturesSection` when every authority certificate parses -/
+theorem brt_parseSignatures_encode (parseOk : Bytes → Bool) (s : Sigs) (x : Bytes) (hx : encodeSignatures s = .ok x)
+    (hlen : x.length < 2 ^ 63) (hp : ∀ a ∈ s.authorities, parseOk a.cert = true)
+    (hauth : ∀ vs ∈ s.subsets, vs.authority < 2 ^ 64) : parseSignatures parseOk x = some s := by
+  rw [brt_encodeSignatures] at hx
+  injection hx with hx
+  have hl := congrArg List.length hx
+  simp only [List.length_append] at hl
+  have hna := brt_len_le_flatten_map CertChain.encAug (fun a => (brt_encAug_bounds a).1) s.authorities
+  have hnv := brt_len_le_flatten_map brt_encVouched (fun a => (brt_encVouched_bounds a).1) s.subsets
+  have hcert : ∀ a ∈ s.authorities, a.cert.length < 2 ^ 63 ∧ (∀ o, a.ocsp = some o → o.length < 2 ^ 63) ∧
+      (∀ s, a.sct = some s → s.length < 2 ^ 63) := by
+    intro a ha
+    have h1 := Sxg.length_le_flatten _ _ (List.mem_map.mpr ⟨a, ha, rfl⟩ : CertChain.encAug a ∈ s.authorities.map CertChain.encAug)
+    obtain ⟨_, b1, b2, b3⟩ := brt_encAug_bounds a
+    refine ⟨by omega, ?_, ?_⟩
+    · intro o ho; have := b2 o ho; omega
+    · intro o ho; have := b3 o ho; omega
+  have hsub : ∀ vs ∈ s.subsets, vs.sig.length < 2 ^ 63 ∧ vs.signed.length < 2 ^ 63 ∧ vs.authority < 2 ^ 64 := by
+    intro vs hvs
+    have h1 := Sxg.length_le_flatten _ _ (List.mem_map.mpr ⟨vs, hvs, rfl⟩ : brt_encVouched vs ∈ s.subsets.map brt_encVouched)
+    obtain ⟨_, b1, b2⟩ := brt_encVouched_bounds vs
+    exact ⟨by omega, by omega, hauth vs hvs⟩
+  unfold parseSignatures
+  rw [← hx, C12.roundtrip_arrayHeader 2 (by decide)]
+  dsimp only
+  rw [if_neg (by decide), C12.roundtrip_arrayHeader _ (by omega)]
+  dsimp only
+  rw [CertChain.decodeCerts_encAll parseOk s.authorities hp hcert [] _]
+  dsimp only
+  rw [C12.roundtrip_arrayHeader _ (by omega)]
+  dsimp only
+  have := brt_decodeVouchedList_enc s.subsets [] [] hsub
+  rw [List.append_nil, if_pos rfl, List.nil_append] at this
+  rw [this]
+  simp
+
+/-! ### 5b. the b1 index (every URL occurs once: `[bstr "", offset, length]`) -/
+
+/-- the b1 index entry the writer emits for a URL with a single resource -/
+def brt_idxE1 (e : IndexEntry) : Entry :=
+  (tstr e.url, encodeArrayHeader 3 ++ (encodeBytes [] ++ (encodeUint e.offset ++ encodeUint e.length)))
+
+theorem brt_indexLoopB1 (url : BUrlFacts) (respLen respOff : Nat) (hro : respOff + respLen < 2 ^ 64) :
+    ∀ (es : List IndexEntry) (tail : Bytes) (acc : List ReqEntry), (∀ e ∈ es, brt_IdxOk url respLen e) →
+    indexEntriesB1 url respLen respOff es.length
+      ((es.map fun e => (brt_idxE1 e).1 ++ (brt_idxE1 e).2).flatten ++ tail) acc =
+      some (acc ++ es.map (brt_mkReq respOff)) := by
+  intro es
+  induction es with
+  | nil => intro tail acc _; simp [indexEntriesB1]
+  | cons e rest ih =>
+    intro tail acc hall
+    have hok := hall e (by simp)
+    have hrest : ∀ x ∈ rest, brt_IdxOk url respLen x := fun x hx => hall x (List.mem_cons_of_mem _ hx)
+    have hin := hok.inResp
+    have e0 : ((e :: rest).map fun e => (brt_idxE1 e).1 ++ (brt_idxE1 e).2).flatten ++ tail =
+        tstr e.url ++ (encodeArrayHeader 3 ++ (encodeBytes [] ++ (encodeUint e.offset ++ (encodeUint e.length ++
+          ((rest.map fun e => (brt_idxE1 e).1 ++ (brt_idxE1 e).2).flatten ++ tail))))) := by
+      simp [brt_idxE1]
+    rw [e0, List.length_cons, indexEntriesB1, brt_decodeText_tstr _ hok.utf8 hok.len]
+    dsimp only
+    rw [hok.urlOk]
+    dsimp only
+    rw [C12.roundtrip_arrayHeader 3 (by decide)]
+    dsimp only
+    rw [if_neg (by decide), C12.roundtrip_bytes [] (by decide)]
+    dsimp only
+    rw [if_pos rfl, if_neg (by decide), decodeLocations, C12.roundtrip_uint _ (by omega)]
+    dsimp only
+    rw [C12.roundtrip_uint _ (by omega)]
+    dsimp only
+    have hmr : makeRelative respLen respOff e.offset e.length = some (respOff + e.offset, e.length) := by
+      unfold makeRelative
+      rw [if_neg (by omega), w64_of_lt (by omega)]
+    rw [hmr]
+    dsimp only
+    rw [decodeLocations]
+    dsimp only
+    rw [ih tail _ hrest]
+    simp [brt_mkReq]
+
+/-- the index entry by version -/
+def brt_idxEv (ver : BVer) (e : IndexEntry) : Entry :=
+  match ver with
+  | .b1 => brt_idxE1 e
+  | .b2 => brt_idxE e
+
+theorem brt_idxEv_fst (ver : BVer) (e : IndexEntry) : (brt_idxEv ver e).1 = tstr e.url := by
+  cases ver <;> rfl
+
+theorem brt_len_le_idxv (ver : BVer) (σ : List IndexEntry) :
+    σ.length ≤ (((σ.map (brt_idxEv ver)).map fun e => e.1 ++ e.2).flatten).length := by
+  rw [List.map_map]
+  apply brt_len_le_flatten_map
+  intro e
+  have := brt_encodeHead_pos 3 e.url.length
+  simp only [Function.comp, brt_idxEv_fst, List.length_append, tstr]
+  omega
+
+/-- `parseIndexSection` / `parseIndexSectionWithVariants` on the writer's index (one resource per URL): `pre` are
+    the sections in front of the responses section; the requests come out in the order in which `EncodeMap` emitted
+    the entries (a permutation `σ` of the writer's entries) -/
+theorem brt_parseIndex_enc (url : BUrlFacts) (ver : BVer) (idx : Bytes) (S : Nat) (pre : List SectionOffset)
+    (respLen : Nat) (post : List SectionOffset) (ents : List IndexEntry)
+    (hpre : ∀ s ∈ pre, s.name ≠ nResponses) (hb : S + lenSum pre + respLen < 2 ^ 64)
+    (hall0 : ∀ e ∈ ents, utf8Valid e.url = true ∧ indexUrl url e.url = some e.url ∧ e.offset + e.length ≤ respLen)
+    (h : encodeMap (ents.map (brt_idxEv ver)) = .ok idx) (hlen : idx.length < 2 ^ 63) :
+    ∃ σ : List IndexEntry, σ.Perm ents ∧
+      parseIndex url ver idx S (pre ++ { name := nResponses, length := respLen } :: post) =
+        some (σ.map (brt_mkReq (S + lenSum pre))) := by
+  obtain ⟨sorted, hp, _, ho⟩ := C11.encodeMap_layout _ _ h
+  obtain ⟨σ, hσ, rfl⟩ := Sxg.perm_map_exists (brt_idxEv ver) sorted ents hp
+  have hn : ents.length = σ.length := hσ.length_eq.symm
+  have hall : ∀ e ∈ σ, brt_IdxOk url respLen e := by
+    intro e he
+    obtain ⟨a1, a2, a3⟩ := hall0 e (hσ.subset he)
+    refine ⟨a1, ?_, a2, a3⟩
+    have hm : (brt_idxEv ver e).1 ++ (brt_idxEv ver e).2 ∈ ((σ.map (brt_idxEv ver)).map fun e => e.1 ++ e.2) :=
+      List.mem_map.mpr ⟨brt_idxEv ver e, List.mem_map.mpr ⟨e, he, rfl⟩, rfl⟩
+    have h1 := Sxg.length_le_flatten _ _ hm
+    have h2 := congrArg List.length ho
+    simp only [List.length_append, brt_idxEv_fst, tstr] at h1 h2
+    omega
+  have hcount := brt_len_le_idxv ver σ
+  have hl := congrArg List.length ho
+  rw [List.length_append] at hl
+  refine ⟨σ, hσ, ?_⟩
+  unfold parseIndex
+  rw [ho, List.length_map, hn, C12.roundtrip_mapHeader _ (by omega)]
+  dsimp only
+  have := brt_findSection pre { name := nResponses, length := respLen } post 0 hpre (by omega)
+  dsimp only at this
+  rw [this]
+  dsimp only
+  rw [Nat.zero_add, w64_of_lt (by omega), List.map_map]
+  cases ver with
+  | b1 =>
+    have := brt_indexLoopB1 url respLen (S + lenSum pre) (by omega) σ [] [] hall
+    rw [List.append_nil, List.nil_append] at this
+    exact this
+  | b2 =>
+    have := brt_indexLoopB2 url respLen (S + lenSum pre) (by omega) σ [] [] hall
+    rw [List.append_nil, List.nil_append] at this
+    exact this
+
+theorem brt_mapM_map {α β γ : Type} (f : β → Option γ) (g : α → β) (h : α → γ) (hf : ∀ a, f (g a) = some (h a)) :
+    ∀ (l : List α), (l.map g).mapM f = some (l.map h) := by
+  intro l
+  induction l with
+  | nil => rfl
+  | cons a rest ih =>
+    rw [List.map_cons, List.mapM_cons, hf, ih]
+    rfl
+
+/-- a successful `Finalize` of a b1 index over entries with distinct URLs -/
+theorem brt_finalize_b1 (entries : List IndexEntry) (idx : Bytes) (hnd : (entries.map (·.url)).Nodup)
+    (h : finalizeIndex .b1 entries = .ok (.ok idx)) :
+    encodeMap (entries.map brt_idxE1) = .ok idx ∧ ∀ e ∈ entries, utf8Valid e.url = true := by
+  obtain ⟨hg, mes, hmes, hm⟩ := finalizeIndex_b1 entries idx h
+  rw [brt_groupByUrl_nodup entries [] (by simpa using hnd), List.nil_append] at hg hmes
+  rw [brt_mapM_map buildB1 (fun e : IndexEntry => (e.url, [e])) brt_idxE1 (by
+    intro e
+    unfold buildB1
+    rw [if_neg (by simp)]
+    simp [brt_idxE1])] at hmes
+  injection hmes with hmes
+  subst hmes
+  exact ⟨hm, fun e he => hg (e.url, [e]) (List.mem_map.mpr ⟨e, he, rfl⟩)⟩
+
+theorem brt_finalize_v (ver : BVer) (entries : List IndexEntry) (idx : Bytes) (hnd : (entries.map (·.url)).Nodup)
+    (h : finalizeIndex ver entries = .ok (.ok idx)) :
+    encodeMap (entries.map (brt_idxEv ver)) = .ok idx ∧ ∀ e ∈ entries, utf8Valid e.url = true := by
+  cases ver with
+  | b1 => exact brt_finalize_b1 entries idx hnd h
+  | b2 => exact brt_finalize_b2 entries idx hnd h
